@@ -19,6 +19,8 @@ DS1 :: distinct S1;
 DA1 :: distinct [2]u8;
 DA2 :: distinct [2]u8;
 DU :: distinct u32;
+DUZ :: distinct usize;
+DIZ :: distinct isize;
 A :: enum { X: i32, Y };
 B :: enum { X: i32, Y };
 AS :: enum { P: S1, Q: S2 };
@@ -131,7 +133,11 @@ def make_cell(i, spec):
         L, R, op, verdict, val = spec["L"], spec["R"], spec["op"], spec["verdict"], spec["val"]
         body = [f"l{i} : {L} = {spec['linit']};", f"q{i} : {R} = {spec['rinit']};"] if R != "literal" else [f"l{i} : {L} = {spec['linit']};"]
         rhs = f"q{i}" if R != "literal" else spec["rinit"]
-        if op == "+=":
+        if op == "ifelse":
+            # the two branches of an if must agree on one type
+            body.append(f"c{i} : bool = true;")
+            body.append(f"r{i} := if c{i} {{ l{i} }} else {{ {rhs} }};")
+        elif op == "+=":
             body.append(f"l{i} += {rhs};")
             if spec["pr"]:
                 body.append(f'printf("%ld\\n", {spec["pr"].format(v=f"l{i}")});')
@@ -174,10 +180,21 @@ def all_specs(thorough):
             ("S1", "S2", "==", "reject", "S1.{ a = 7, b = 1 }", "S2.{ a = 7, b = 1 }", None, None), ("S1", "S1", "==", "accept", "S1.{ a = 7, b = 1 }", "S1.{ a = 7, b = 1 }", None, "1"),
             ("DB", "bool", "&&", "either", "DB.(true)", "true", None, None), ("A.X", "B.X", "==", "reject", "A.X.(7)", "B.X.(7)", None, None)]
     # a distinct value and a strongly typed value of its underlying type never mix (both orders, signed and unsigned)
-    for D, U in (("D1", "i32"), ("DU", "u32")):
+    for D, U in (("D1", "i32"), ("DU", "u32"), ("DUZ", "usize"), ("DIZ", "isize")):
         for op in ("+", "*", "==", "<"):
             bins.append((D, U, op, "reject", f"{D}.(7)", "3", None, None))
             bins.append((U, D, op, "reject", "3", f"{D}.(7)", None, None))
+    # an enum value next to a variant of another enum (the common type is computed by `max`)
+    bins.append(("A", "B.X", "==", "reject", "A.X.(7)", "B.X.(7)", None, None))
+    bins.append(("B.X", "A", "==", "reject", "B.X.(7)", "A.X.(7)", None, None))
+    bins.append(("A", "A.X", "==", "accept", "A.X.(7)", "A.X.(7)", None, "1"))
+    bins.append(("A", "B.X", "ifelse", "reject", "A.X.(7)", "B.X.(7)", None, None))
+    bins.append(("B.X", "A", "ifelse", "reject", "B.X.(7)", "A.X.(7)", None, None))
+    bins.append(("S1", "S2", "ifelse", "reject", "S1.{ a = 7, b = 1 }", "S2.{ a = 7, b = 1 }", None, None))
+    bins.append(("D1", "D2", "ifelse", "reject", "D1.(7)", "D2.(7)", None, None))
+    bins.append(("D1", "i32", "ifelse", "reject", "D1.(7)", "3", None, None))
+    bins.append(("DUZ", "usize", "+=", "reject", "DUZ.(7)", "3", None, None))
+    bins.append(("usize", "DIZ", "+", "reject", "3", "DIZ.(7)", None, None))
     bins.append(("DU", "u32", "+=", "reject", "DU.(7)", "3", None, None))
     bins.append(("D1", "i32", "+=", "reject", "D1.(7)", "3", None, None))
     bins.append(("u32", "DU", "+=", "reject", "3", "DU.(7)", None, None))
